@@ -51,7 +51,7 @@ DevDgrams(n) == {d \in AllDgrams : Deviations(d) + (IF d.src = "dest" THEN 0 ELS
        wait expires. *)
 ConfigType == [api : {"udp", "recv", "fallback"}, iu : BOOLEAN, ie : BOOLEAN, rot : BOOLEAN,
                it : BOOLEAN, mcast : BOOLEAN, hasq : BOOLEAN, anysrc : BOOLEAN,
-               fam : {"v4", "v6"}, deadline : Nat, tz : {"-", "int0", "float0", "tiny"}]
+               fam : {"v4", "v6"}, deadline : Nat, tz : {"-", "int0", "float0", "tiny"}, qop : SentOpcodes]
 
 \* one configuration per distinguishable call
 CanonConfig(c) == /\ (c.api # "recv" => c.hasq /\ ~c.anysrc)
@@ -60,7 +60,9 @@ CanonConfig(c) == /\ (c.api # "recv" => c.hasq /\ ~c.anysrc)
                   /\ (c.tz # "-" => c.deadline = 0)
 ConfigsOver(apis, deadlines, mcasts, fams) ==
     {c \in [api : apis, iu : BOOLEAN, ie : BOOLEAN, rot : BOOLEAN, it : BOOLEAN, mcast : mcasts,
-            hasq : BOOLEAN, anysrc : BOOLEAN, fam : fams, deadline : deadlines, tz : {"-"}] : CanonConfig(c)}
+            hasq : BOOLEAN, anysrc : BOOLEAN, fam : fams, deadline : deadlines, tz : {"-"}, qop : {"QUERY"}] : CanonConfig(c)}
+\* the same configurations for other kinds of message sent
+WithOpcodes(S, qops) == {[c EXCEPT !.qop = q] : c \in S, q \in qops}
 \* the zero-timeout spellings of the configurations of S that have no deadline
 ZeroTimeouts(S) == {[c EXCEPT !.tz = z] : c \in {x \in S : x.deadline = 0}, z \in {"int0", "float0", "tiny"}}
 
@@ -73,7 +75,7 @@ FromDest(d, c) == \/ c.anysrc
                   \/ d.src \in {"dest", "altText"}
                   \/ c.mcast /\ d.src = "otherAddr"
 
-Genuine(d, c) == FromDest(d, c) /\ RespondsToQuery(d)
+Genuine(d, c) == FromDest(d, c) /\ RespondsTo(d, c.qop)
 
 \* the whole datagram is a well-formed message under the parsing options in force
 Parses(d, c) == ParsesWith(d, c.it)
@@ -96,16 +98,16 @@ AllowedKinds(d, c) ==
     IF ~FromDest(d, c) THEN
         IF c.iu THEN {"skip"} ELSE IF c.ie THEN {"skip", "raise"} ELSE {"raise"}
     ELSE IF ~Parses(d, c) THEN
-        IF c.ie THEN (IF d.wf # "shortHeader" /\ d.tc /\ Rot(c) /\ (Verify(c) => RespondsToQuery(d))
+        IF c.ie THEN (IF d.wf # "shortHeader" /\ d.tc /\ Rot(c) /\ (Verify(c) => MayRespond(d, c.qop))
                         THEN {"skip", "raise"} ELSE {"skip"})
         ELSE {"raise"}
-    ELSE IF Verify(c) /\ ~RespondsToQuery(d) THEN
+    ELSE IF Verify(c) /\ ~RespondsTo(d, c.qop) THEN
         IF c.ie THEN {"skip"} ELSE {"raise"}
     ELSE IF d.tc /\ Rot(c) THEN {"raise"}
     ELSE {"ret"}
 
 \* "a genuine truncated reply is reported as truncation when asked"
-MustBeTruncated(d, c) == FromDest(d, c) /\ Parses(d, c) /\ (Verify(c) => RespondsToQuery(d))
+MustBeTruncated(d, c) == FromDest(d, c) /\ Parses(d, c) /\ (Verify(c) => RespondsTo(d, c.qop))
                          /\ d.tc /\ Rot(c)
 \* Truncated is only ever reported for a datagram whose header carries TC, when asked
 MayBeTruncated(d, c) == d.wf # "shortHeader" /\ d.tc /\ Rot(c)
@@ -141,6 +143,7 @@ Silence == /\ status = "open"
 Deliver(d, k) ==
     /\ status = "open" /\ consumed < MaxDgrams
     /\ (d.src = "altText" => cfg.fam = "v6")   \* only IPv6 has two spellings of one address
+    /\ Deliverable(d, cfg.qop)
     /\ k \in AllowedKinds(d, cfg)
     /\ consumed' = consumed + 1 /\ last' = d
     /\ status' = IF k = "skip" THEN "open" ELSE k
@@ -171,14 +174,14 @@ ReturnOnlyGenuine ==
 AtStart == consumed = 0 /\ nblocks = 0 /\ status = "open"   \* (statements about cfg only)
 \* the same, as a statement about every datagram of the universe (not only those reached)
 ReturnSound ==
-    AtStart => \A d \in Dgrams : ("ret" \in AllowedKinds(d, cfg)) =>
+    AtStart => \A d \in {x \in Dgrams : Deliverable(x, cfg.qop)} : ("ret" \in AllowedKinds(d, cfg)) =>
         /\ FromDest(d, cfg) /\ Parses(d, cfg) /\ (Verify(cfg) => Genuine(d, cfg)) /\ ~(d.tc /\ Rot(cfg))
         /\ AllowedKinds(d, cfg) = {"ret"}
 
 \* a genuine well-formed reply always ends the exchange (it is never skipped), and a
 \* genuine well-formed truncated one ends it with Truncated when asked
 GenuineEnds ==
-    AtStart => \A d \in Dgrams : (Genuine(d, cfg) /\ Parses(d, cfg)) =>
+    AtStart => \A d \in {x \in Dgrams : Deliverable(x, cfg.qop)} : (Genuine(d, cfg) /\ Parses(d, cfg)) =>
         /\ "skip" \notin AllowedKinds(d, cfg)
         /\ (d.tc /\ Rot(cfg)) => (AllowedKinds(d, cfg) = {"raise"} /\ AllowedExc(d, cfg) = {"Truncated"})
         /\ ~(d.tc /\ Rot(cfg)) => AllowedKinds(d, cfg) = {"ret"}
@@ -186,11 +189,11 @@ GenuineEnds ==
 \* with ignore_errors (and ignore_unexpected) nothing but a genuine reply can end the
 \* exchange early: an off-path attacker cannot make it fail
 SpoofCannotEnd ==
-    AtStart => \A d \in Dgrams : (cfg.ie /\ cfg.iu /\ Verify(cfg) /\ ~Genuine(d, cfg)) =>
+    AtStart => \A d \in {x \in Dgrams : Deliverable(x, cfg.qop)} : (cfg.ie /\ cfg.iu /\ Verify(cfg) /\ ~(FromDest(d, cfg) /\ MayRespond(d, cfg.qop))) =>
         AllowedKinds(d, cfg) = {"skip"}
 
 \* every datagram has some verdict
-VerdictTotal == AtStart => \A d \in Dgrams : AllowedKinds(d, cfg) # {}
+VerdictTotal == AtStart => \A d \in {x \in Dgrams : Deliverable(x, cfg.qop)} : AllowedKinds(d, cfg) # {}
 
 \* a skipped datagram never ends the exchange; an ended exchange stays ended
 SkipKeepsListening ==
